@@ -7,7 +7,8 @@ CONSTANTS
   Menu = {"near", "ef"}
   AllValues = TRUE
   Rots = {0}
-  PatSet = {"zeros", "ones", "alt"}
+  PatSet = {"ones", "alt"}
+  Boundaries = {1}
   NearFields = 6
   EFN = {2, 3}
   EFMaxThreads = 3
